@@ -341,7 +341,8 @@ def origins(f, d, depth=0, seen=None):
                 else:
                     out.append({'k': 'elem', 'of': s2, 'via': 'deref'})
             return out
-        if nm in ('begin', 'end', 'rbegin', 'cbegin') and 'recv' in d:
+        if 'recv' in d and depth < 10:
+            # member call: the receiver is resolved too (x->path() of an element of outputs_)
             rs = origins(f, d['recv'], depth + 1, seen)
             return [dict(d, recv=r) for r in rs] if rs else [d]
         return [d]
